@@ -62,6 +62,9 @@ def _render_body(body, ind):
             com = _comment(ins, ind + "  ")
             if val is None and not com:
                 out += f"{ind}<field{a}/>\n"
+            elif val is not None and com and ins.get("value_after_comment"):
+                # pretty-printed layout: whitespace, the comment child, then the text (the comment's tail)
+                out += f"{ind}<field{a}>\n{com}{ind}  {escape(val)}\n{ind}</field>\n"
             else:
                 out += f"{ind}<field{a}>{escape(val) if val is not None else ''}"
                 out += ("\n" + com + ind if com else "") + "</field>\n"
